@@ -14,7 +14,8 @@ from ..runner import CaseResult, digest
 ID = "C11"
 ATOMS = ["a", "Bc", ":k", "?x", "-", "1.5", "<="]
 ODD_ATOMS = ["x^2", "#t", "p@q", "a,b", "k|", "[i]", "$v", "!n", "~", "a&b", "50%", '"s"', "it's", "{z}", "\\e", "^"]
-GAPS = [" ", "  ", "\t", "\n", "\r\n", "", " ;c\n", ";(x) ;y\n", "\n; only (comment\n", " \t \n", "\r"]
+GAPS = [" ", "  ", "\t", "\n", "\r\n", "", " ;c\n", ";(x) ;y\n", "\n; only (comment\n", " \t \n", "\r",
+        " ;p\x0c(q\x0b)r\x1c s\x85t\u2028u\n"]  # a comment ends at the line feed, not at a form feed / VT / NEL / LS inside it
 SMALL_GAPS = [" ", "\t", "\n", " ;c\n", "", "\r\n", "\r"]
 TINY_GAPS = [" ", "\t", "\n", ""]
 EDGE_GAPS = ["", " ", "\n", "\t", ";c\n", "\r\n"]
@@ -22,7 +23,7 @@ CASEFN = [str.lower, str.upper, lambda s: s[:1].upper() + s[1:].lower()]
 
 RULE = ("all ordered token trees (root a list) with <= N nodes; leaves labelled from a 7-atom alphabet "
         "(full product for <= 4 nodes, 7 rotations of the alphabet above); per tree: canonical rendering, "
-        "all renderings with <= D deviations (a gap drawn from an 11-entry whitespace/comment menu (incl. a bare CR), or an "
+        "all renderings with <= D deviations (a gap drawn from a 12-entry whitespace/comment menu (incl. a bare CR and a comment holding FF / VT / FS / NEL / LS), or an "
         "atom in another letter case), full product over a 5-entry menu for trees of <= 3 nodes, both "
         "entry points (quick: file entry for <= 1 deviation; deviations beyond the first (quick) / second (thorough) draw gaps from a 7-entry menu); all single-parenthesis deletions/insertions and 3 trailing-text faults. "
         "N,D = 5,2 (quick) / 6,3 (thorough). non-trivial = a tree with >= 1 atom and >= 1 nested list "
@@ -227,6 +228,17 @@ def check_reuse(r, tree, want):
             for call in range(3):
                 got = guard(tk.parse)
                 r.count("transitions")
+                if ok and not isinstance(got, Raised) and got == want and isinstance(got, list):
+                    # the caller owns what parse() returned: editing it does not change what the next parse() returns
+                    def scribble(x):
+                        for y in x:
+                            if isinstance(y, list):
+                                scribble(y)
+                        x.append("zz")
+                        if len(x) > 1:
+                            x.pop(0)
+                    scribble(got)
+                    continue
                 if ok and (isinstance(got, Raised) or got != want):
                     r.outcome("reuse-wrong")
                     r.fail("reuse", f"{entry}: call {call + 1} of parse() on one tokenizer over {text!r} -> "
